@@ -316,6 +316,10 @@ func extractStructFields(pkg *packages.Package, qf types.Qualifier, depth int32,
 		if strings.HasPrefix(f.Name(), "_") {
 			continue
 		}
+		//unexported fields of a struct from another package cannot be set from here
+		if !f.Exported() && f.Pkg() != nil && f.Pkg().Path() != pkg.PkgPath {
+			continue
+		}
 		if parseNewTag(st.Tag(i)) == "-" {
 			continue
 		}
